@@ -1407,6 +1407,9 @@ func main() {
 		// exploration (not part of the check): a compressed v1 wrapper that carries a KEY — the hypothesis `hkey` of
 		// Props/C05.decoders_agree_content excludes it (brokers write wrappers with a null key)
 		inner := ask(o, "encset m:1:0:0:1600000000000:6b31:7631 m:1:1:0:1600000000001:6b32:7632")
+		if len(os.Args) > 3 && os.Args[3] == "empty" {
+			inner = nil
+		}
 		comp := compressWith(1, inner)
 		set := ask(o, fmt.Sprintf("encset m:1:11:1:1600000000001:%s:%s", os.Args[2], wb(comp)))
 		fmt.Println("client:", canonList(fetchClient(set, 10)))
